@@ -373,7 +373,16 @@ class DWorld:
 
     # ---- fair completion ------------------------------------------------------------
     def settle(self, rounds=400, timers=False):
+        links0 = len(self.net.links)
+        logged0 = len(self.logged)
         for _ in range(rounds):
+            if "reconnect livelock" in self.logged:
+                break
+            if len(self.net.links) - links0 > 6 or len(self.logged) - logged0 > 12:
+                # connections keep being established and dropped although the network delivers everything: the stacks do not converge
+                if "reconnect livelock" not in self.logged:
+                    self.logged.append("reconnect livelock")
+                break
             prog = False
             for i in (0, 1):
                 while not getattr(self, "inert", False) and self.deliver_msg(i):
